@@ -3,6 +3,8 @@ package c14
 
 import (
 	"fmt"
+	"go/constant"
+	"go/token"
 	"go/types"
 	"math/rand"
 	"sort"
@@ -392,9 +394,49 @@ type litKind struct {
 }
 
 // randLit returns (source expression, expected exact string) for a result of the given declared type.
+// exactOf: the exact value of an untyped literal expression as go/constant prints it (what the SOURCE says, before
+// any conversion to the result type)
+func exactOf(parts ...string) string {
+	lit := func(s string) constant.Value {
+		switch {
+		case strings.HasSuffix(s, "i"):
+			return constant.MakeFromLiteral(s, token.IMAG, 0)
+		case strings.HasPrefix(s, "'"):
+			return constant.MakeFromLiteral(s, token.CHAR, 0)
+		case strings.ContainsAny(s, ".eE") && !strings.HasPrefix(s, "0x"):
+			return constant.MakeFromLiteral(s, token.FLOAT, 0)
+		}
+		return constant.MakeFromLiteral(s, token.INT, 0)
+	}
+	v := lit(parts[0])
+	for i := 1; i+1 < len(parts); i += 2 {
+		op := map[string]token.Token{"+": token.ADD, "-": token.SUB, "*": token.MUL}[parts[i]]
+		v = constant.BinaryOp(v, op, lit(parts[i+1]))
+	}
+	return v.ExactString()
+}
+
 func (g *fgen) randLit(typ string) (string, string) {
 	switch typ {
-	case "int", "int64", "float64":
+	case "float64", "float32", "complex128", "any":
+		// literals whose exact value differs from what the result type can hold, or whose kind differs from it
+		var pool [][]string
+		switch typ {
+		case "float64":
+			pool = [][]string{{"0.1"}, {"2.5"}, {"1e3"}, {"1234567"}, {"3.14159265358979323846264338327950288"}, {"0.1", "+", "0.2"}, {"7"}, {"1e-320"}}
+		case "float32":
+			pool = [][]string{{"0.1"}, {"16777217"}, {"1.5"}, {"3"}, {"0.3", "*", "3"}}
+		case "complex128":
+			pool = [][]string{{"1"}, {"2.5"}, {"1i"}, {"0.1"}, {"3", "+", "4i"}}
+		default:
+			if g.r.Intn(4) == 0 {
+				return "nil", "nil"
+			}
+			pool = [][]string{{"0.1"}, {"42"}, {"'x'"}, {"1", "+", "0.5"}, {"2i"}}
+		}
+		pick := pool[g.r.Intn(len(pool))]
+		return strings.Join(pick, " "), exactOf(pick...)
+	case "int", "int64":
 		a, b := g.r.Intn(50), g.r.Intn(50)
 		switch g.r.Intn(5) {
 		case 0:
@@ -432,7 +474,7 @@ func (g *fgen) randLit(typ string) (string, string) {
 	}
 }
 
-var litTypes = []string{"int", "string", "bool", "error", "*int", "[]string", "int64", "float64"}
+var litTypes = []string{"int", "string", "bool", "error", "*int", "[]string", "int64", "float64", "float32", "complex128", "any", "float64"}
 
 func (g *fgen) literalOnly() {
 	g.n++
